@@ -257,7 +257,14 @@ func (ex *Exec) havocCall(fr *Frame, st *State, name string, args []Value, rt ty
 
 func (ex *Exec) havocEverything(st *State) {
 	st.logWrite(&WriteRec{Kind: "everything"})
-	st.Heap = map[string]*Term{}
+	// ghost state is specification-only: it changes only where a contract names it
+	keep := map[string]*Term{}
+	for n, t := range st.Heap {
+		if strings.HasPrefix(n, "G|ghost") {
+			keep[n] = t
+		}
+	}
+	st.Heap = keep
 	st.Epoch = Fresh("epoch", BVSort(32))
 	st.advanceAlloc("alloc")
 }
